@@ -103,4 +103,41 @@ def check(tier='quick', seed=0):
         if dev > 2e-3:
             return fail(clause='band values are neither taken at coinciding frequencies nor interpolated (data written to the wrong frequencies)',
                         input_freq=str(shift), max_rel_deviation_from_smooth_spectrum=float(dev))
+    # histories of assignments: the object afterwards behaves like a newly made Fourier of the values it holds now
+    spec = lambda f: 1.0 / (1.0 + 1j * f)
+    for ft, ftarg in (('dlf', {'dlf': 'key_81_2009', 'pts_per_dec': -1}), ('dlf', {'dlf': 'key_201_2012', 'pts_per_dec': 10}), ('fftlog', {'pts_per_dec': 5, 'add_dec': [-2, 2], 'q': 0})):
+        t0 = np.logspace(-2, 1, 11)
+
+        def history_signal():
+            F = emg3d.time.Fourier(time=t0.copy(), fmin=0.01, fmax=100.0, signal=0, ft=ft, ftarg=dict(ftarg), verb=0)
+            F.signal = -1
+            return F, emg3d.time.Fourier(time=t0.copy(), fmin=0.01, fmax=100.0, signal=-1, ft=ft, ftarg=dict(ftarg), verb=0), 'constructed with signal=0, then F.signal = -1'
+
+        def history_signal_then_time():
+            t = t0.copy()
+            F = emg3d.time.Fourier(time=t, fmin=0.01, fmax=100.0, signal=1, ft=ft, ftarg=dict(ftarg), verb=0)
+            F.signal = -1
+            F.time = t                        # the very array it holds already
+            return F, emg3d.time.Fourier(time=t0.copy(), fmin=0.01, fmax=100.0, signal=-1, ft=ft, ftarg=dict(ftarg), verb=0), 'constructed with signal=1, then F.signal = -1, then F.time = <the same array>'
+
+        def history_time_in_place():
+            t = t0.copy()
+            F = emg3d.time.Fourier(time=t, fmin=0.01, fmax=100.0, signal=0, ft=ft, ftarg=dict(ftarg), verb=0)
+            t *= 5.0                          # the owner edits its array in place ...
+            F.time = t                        # ... and assigns it again
+            return F, emg3d.time.Fourier(time=t0 * 5.0, fmin=0.01, fmax=100.0, signal=0, ft=ft, ftarg=dict(ftarg), verb=0), 'time array edited in place (t *= 5), then F.time = t'
+
+        def history_arguments():
+            F = emg3d.time.Fourier(time=t0.copy(), fmin=0.01, fmax=100.0, signal=-1, verb=0)
+            F.fourier_arguments(ft, dict(ftarg))
+            return F, emg3d.time.Fourier(time=t0.copy(), fmin=0.01, fmax=100.0, signal=-1, ft=ft, ftarg=dict(ftarg), verb=0), 'constructed with the default transform, then F.fourier_arguments(ft, ftarg)'
+        for hist in (history_signal, history_signal_then_time, history_time_in_place, history_arguments):
+            cases += 1
+            F, G, text = hist()
+            if F.freq_required.shape != G.freq_required.shape or not np.allclose(F.freq_required, G.freq_required, rtol=1e-12, atol=0):
+                return fail(clause='required frequencies after a history of assignments differ from those of a newly made Fourier of the same values', history=text, transform=ft)
+            a, b = F.freq2time(spec(F.freq_compute), 500.0), G.freq2time(spec(G.freq_compute), 500.0)
+            if a.shape != b.shape or not np.allclose(a, b, rtol=1e-9, atol=1e-30):
+                return fail(clause='freq2time after a history of assignments differs from that of a newly made Fourier of the same values (reference transform of the current signal / times / arguments)',
+                            history=text, transform=ft, max_rel_deviation=float(np.max(np.abs(a - b) / np.maximum(np.abs(b), 1e-300))))
     return dict(reproduced=False, cases=cases)
